@@ -49,6 +49,13 @@ def vc_task(task):
     return res
 
 
+def purity_task(task):
+    """D-infinity, structural: no read-only member of State (property getters, get_*, can_*, verify_*) writes to the object"""
+    import props.scans as SC
+    src = source(EXTRA)
+    return {'results': [SC.purity_result(src.trees['pokerkit.state'], 'C08')], 'contract': None}
+
+
 def main(argv=None):
     chk = Check('C08', 'proof', argv)
     source(EXTRA)
@@ -61,6 +68,7 @@ def main(argv=None):
             tasks.append({'module': 'props.c08', 'fn': 'vc_task', 'name': f'{name}/n{sh.n}', 'contract': name,
                           'shape': sh.as_dict(), 'chips': 'int', 'timeout_ms': 60000 if chk.tier == 'thorough' else 20000,
                           'weight': (10 if heavy else 1) * sh.n, 'sample': name == 'can_select_runout_count'})
+    tasks.append({'module': 'props.c08', 'fn': 'purity_task', 'name': 'queries-are-pure'})
     chk.run_tasks(tasks)
     chk.assumptions += [
         'precondition inv08 (contracts/inv.py): queued actors are live with chips; a betting queue implies a current '
